@@ -242,7 +242,7 @@ def ref_receive(items, rsv1_ok=False, stop_after_close=True):
             if frag[0] == TEXT and not (rsv1_ok and frag[2]):
                 if not Ctx.cur.branch(utf8_valid_term(frag[1])):
                     # truncated sequence at end of message
-                    r.viol = dict(kind='truncated utf-8 at end of text', earliest=start + hdr, complete=True,
+                    r.viol = dict(kind='truncated utf-8 at end of text', earliest=start + hdr, ff_limit=pos, complete=True,
                                   frame_start=start, utf8=True)
                     return r
             r.msgs.append((KIND[frag[0]], frag[1]) if not frag[2] else (KIND[frag[0]] + '-compressed', frag[1]))
